@@ -599,7 +599,7 @@ func (e *env) hole(cf conf, expect string) {
 func TestC15(t *testing.T) {
 	out := vres.OutDir()
 	res := vres.New()
-	res.Rule = "one case = one scenario on a fresh server + proxy + client: outage pattern (down for j attempts then healed / held down until the client gives up / unreachable at first / flapping / black-holed) x attempt limit 0..5 x transport x jitter x mixes of plain, volatile, ack-carrying and binary emits before, during and after; plus the deterministic schedules (emit while pending, close while Dial returns, buffered greeting, emit between state write and flush); all non-trivial"
+	res.Rule = "one case = one scenario on a fresh server + proxy + client: outage pattern (down for j attempts then healed / held down until the client gives up / unreachable at first / flapping / black-holed) x attempt limit 0..5 x transport x jitter x mixes of plain, volatile, ack-carrying and binary emits before, during and after; plus the deterministic schedules (emit while pending with and without something parked, close while Dial returns, buffered greeting, emit between state write and flush) and emit storms (one goroutine emitting without pause through connect and reconnect, every log call of the library and every hook point a scheduling point); all non-trivial"
 	vtrace.Install()
 	defer vtrace.Uninstall()
 	vtrace.SetFilter(keep)
